@@ -18,10 +18,18 @@ def empty_input(form):
 
 
 def as_input(points, empty_form="zeros02", as_list=False):
+    """as_list: False = float64 array, True = nested list, "narrow" = the narrowest integer dtype that holds the values exactly
+    (uint8 / int16 / int32) when all coordinates are integral, else float64"""
     if len(points) == 0:
         return empty_input(empty_form)
-    if as_list:
+    if as_list is True:
         return [list(p) for p in points]
+    if as_list == "narrow":
+        flat = [x for p in points for x in p]
+        if all(float(x).is_integer() and abs(x) < 2 ** 31 for x in flat):
+            lo, hi = min(flat), max(flat)
+            dt = np.uint8 if (lo >= 0 and hi <= 255) else np.int16 if (lo >= -32768 and hi <= 32767) else np.int32
+            return np.array(points, dtype=dt)
     return np.array(points, dtype=float)
 
 
@@ -97,3 +105,13 @@ def near_identical_pair(draw, max_size=5):
         B.append([nb, max(nb, nd)])
     perm = draw(st.permutations(list(range(len(A)))))
     return {"fam": {"mode": fam["mode"], "scale": fam["scale"], "dgms": [A, [B[i] for i in perm]]}, "k": k}
+
+
+def decimal_singleton_cases():
+    """all ordered pairs of diagrams with <= 1 point on {(b, b+l) * s : b in 0..9, l in 1..9} for decimal steps s: coordinates
+    that are not exactly representable, where two mathematically equal candidate costs differ by an ulp"""
+    for s in (0.1, 0.01, 1.0 / 3.0, 0.7):
+        pts = [[]] + [[[b * s, (b + l) * s]] for b in range(10) for l in range(1, 10)]
+        for a in pts:
+            for b in pts:
+                yield {"A": a, "B": b}
